@@ -1,7 +1,282 @@
-// correspondence + search binary for property C20 (stub)
+// C20 — seeded sampling: the real explore_one / explore_any / Layer::init, asked repeatedly and
+// from many threads, vs the bit-exact Lean model (SipHash-1-3 + Xoshiro256++ + rand 0.8.5
+// gen_range / WeightedIndex<f32>) which *predicts* the branch. Search oracle: identical answers per
+// (epoch, bucket) on every thread / repetition / tree, chi-square across epochs, init twice equal.
+use robopoker::cards::street::Street;
+use robopoker::clustering::abstraction::Abstraction;
+use robopoker::clustering::histogram::Histogram;
+use robopoker::clustering::layer::Layer;
+use robopoker::clustering::metric::Metric;
+use robopoker::gameplay::action::Action;
+use robopoker::mccfr::blueprint::Blueprint;
+use robopoker::mccfr::bucket::Bucket;
+use robopoker::mccfr::data::Data;
+use robopoker::mccfr::edge::Edge;
+use robopoker::mccfr::encoder::Encoder;
+use robopoker::mccfr::info::Info;
+use robopoker::mccfr::node::Node;
+use robopoker::mccfr::partition::Partition;
+use robopoker::mccfr::player::Player;
+use robopoker::mccfr::profile::Profile;
+use robopoker::mccfr::tree::Branch;
+use rpharness::*;
+use std::collections::BTreeMap;
+
+fn disc(a: &Abstraction) -> u64 {
+    match a {
+        Abstraction::Percent(_) => 0,
+        Abstraction::Learned(_) => 1,
+        Abstraction::Preflop(_) => 2,
+    }
+}
+fn key(b: &Bucket) -> String {
+    format!("{} {} {} {}", u64::from(b.0), disc(&b.1), u64::from(b.1), u64::from(b.2))
+}
+
+fn train(bp: &Blueprint, epochs: usize, batch: usize) {
+    let profile = bp.verif_profile();
+    for _ in 0..epochs {
+        let mut cfs = vec![];
+        for _ in 0..batch {
+            let tree = bp.verif_tree();
+            for info in Vec::<Info>::from(Partition::from(tree)) {
+                cfs.push(profile.read().unwrap().counterfactual(info));
+            }
+        }
+        let mut p = profile.write().unwrap();
+        for cf in cfs {
+            let bucket = cf.info().node().bucket().clone();
+            p.add_regret(&bucket, cf.regret());
+            p.add_policy(&bucket, cf.policy());
+        }
+        p.next();
+    }
+}
+
+/// index of the branch the real explore_one takes at `node`
+fn one(profile: &Profile, enc: &Encoder, node: &Node) -> Option<usize> {
+    let branches = enc.branches(node);
+    let edges: Vec<Edge> = branches.iter().map(|b| *b.edge()).collect();
+    let chosen = profile.explore_one(branches, node);
+    edges.iter().position(|e| e == chosen[0].edge())
+}
+
 fn main() {
-    let a = rpharness::args();
-    let mut run = rpharness::Run::new(&a.out);
-    run.rule = "stub".into();
+    let a = args();
+    let mut rng = Rng::new(a.seed);
+    let mut run = Run::new(&a.out);
+    quiet_panics();
+    let enc = Encoder::default();
+    let bp = Blueprint::verif_new(Profile::default(), Encoder::default());
+    train(&bp, 6, 24);
+    let profile = bp.verif_profile();
+    let ntrees = if a.thorough() { 400 } else { 60 };
+    let nthreads = if a.thorough() { 8 } else { 3 };
+    run.rule = format!("profile trained 6 epochs x 24 trees; {ntrees} sampled trees, every opponent decision node: real explore_one asked 3x on the main thread and once on each of {nthreads} fresh threads, compared with each other and with the model's predicted index; nodes of different trees sharing (epoch, bucket) must agree; epochs swept 0..N at fixed buckets for the chi-square test; synthetic chance branch lists of size 2..40 for explore_any; Layer::init on random river-histogram point sets, twice, on fresh threads and under rayon pools of 1/3/8 threads; a case is non-trivial when the node offers >= 2 branches; distinct by (epoch, bucket)");
+    // ---- 1. explore_one at real opponent nodes, many threads, many trees
+    let mut seen: BTreeMap<(usize, String), usize> = BTreeMap::new();
+    let mut sweep: Vec<(Bucket, Vec<f32>)> = vec![];
+    for t in 0..ntrees {
+        if t % 7 == 3 {
+            train(&bp, 1, 4); // move to the next epoch (alternates the walker)
+        }
+        let tree = bp.verif_tree();
+        let p = profile.read().unwrap();
+        let epoch = p.epochs();
+        let walker = p.walker();
+        for node in tree.all() {
+            let player = node.player();
+            if node.children().is_empty() || player == walker || player == Player::chance() {
+                continue;
+            }
+            let bucket = node.bucket().clone();
+            let edges: Vec<Edge> = Vec::<Edge>::from(bucket.2.clone());
+            let weights: Vec<f32> = edges.iter().map(|e| p.weight(&bucket, e)).collect();
+            run.evaluations += 1;
+            let first = catch(std::panic::AssertUnwindSafe(|| one(&p, &enc, &node))).flatten();
+            let mut answers = vec![first];
+            for _ in 0..2 {
+                answers.push(catch(std::panic::AssertUnwindSafe(|| one(&p, &enc, &node))).flatten());
+            }
+            std::thread::scope(|s| {
+                let hs: Vec<_> = (0..nthreads)
+                    .map(|_| s.spawn(|| catch(std::panic::AssertUnwindSafe(|| one(&p, &enc, &node))).flatten()))
+                    .collect();
+                for h in hs {
+                    answers.push(h.join().unwrap_or(None));
+                }
+            });
+            let op = format!("one {} {} {}", epoch, key(&bucket), weights.iter().map(|w| w.to_bits().to_string()).collect::<Vec<_>>().join(" "));
+            let ans = match first { Some(i) => i.to_string(), None => "panic".into() };
+            run.line(&op, &ans);
+            run.spec_checked += 1;
+            if answers.iter().any(|x| *x != first) {
+                run.fail("choice-not-reproducible", &op, &format!("{:?} on every thread and repetition", first), &format!("{:?}", answers));
+            }
+            let k = (epoch, key(&bucket));
+            if let Some(prev) = seen.get(&k) {
+                if Some(*prev) != first {
+                    run.fail("choice-not-reproducible", &format!("{op} (same epoch and bucket in another tree)"), &format!("{prev}"), &format!("{:?}", first));
+                }
+                run.count("same-key-in-two-trees");
+            } else if let Some(i) = first {
+                seen.insert(k.clone(), i);
+            }
+            if edges.len() >= 2 {
+                run.distinct(&k);
+            }
+            run.count(&format!("menu-size={:02}", edges.len()));
+            if edges.len() >= 3 && sweep.len() < 6 && weights.iter().any(|w| (*w - weights[0]).abs() > 0.02) && !sweep.iter().any(|(b, _)| *b == bucket) {
+                sweep.push((bucket.clone(), weights.clone()));
+            }
+        }
+    }
+    // ---- 2. epochs swept at fixed buckets: unbiased draw + model prediction per epoch
+    let nsweep: usize = if a.thorough() { 100_000 } else { 12_000 };
+    // find a node for each sweep bucket in a fresh tree is not needed: rebuild nodes by sampling trees until found
+    let mut found = 0;
+    let mut guard = 0;
+    while found < sweep.len().min(3) && guard < 400 {
+        guard += 1;
+        let tree = bp.verif_tree();
+        let epoch0 = profile.read().unwrap().epochs();
+        let target = sweep[found].0.clone();
+        let node = tree.all().into_iter().find(|n| !n.children().is_empty() && *n.bucket() == target);
+        let node = match node { Some(n) => n, None => continue };
+        let weights: Vec<f32> = {
+            let p = profile.read().unwrap();
+            Vec::<Edge>::from(target.2.clone()).iter().map(|e| p.weight(&target, e)).collect()
+        };
+        let mut hist = vec![0u64; weights.len()];
+        for e in 0..nsweep {
+            profile.write().unwrap().verif_set_epochs(e);
+            let p = profile.read().unwrap();
+            let got = catch(std::panic::AssertUnwindSafe(|| one(&p, &enc, &node))).flatten();
+            run.evaluations += 1;
+            if e < 3000 {
+                let op = format!("one {} {} {}", e, key(&target), weights.iter().map(|w| w.to_bits().to_string()).collect::<Vec<_>>().join(" "));
+                run.line(&op, &match got { Some(i) => i.to_string(), None => "panic".into() });
+            }
+            if let Some(i) = got { hist[i] += 1; }
+        }
+        profile.write().unwrap().verif_set_epochs(epoch0);
+        run.spec_checked += 1;
+        let total: f64 = weights.iter().map(|w| *w as f64).sum();
+        for (i, w) in weights.iter().enumerate() {
+            let p = *w as f64 / total;
+            let mean = nsweep as f64 * p;
+            let sigma = (nsweep as f64 * p * (1.0 - p)).sqrt().max(1.0);
+            if (hist[i] as f64 - mean).abs() > 6.0 * sigma {
+                run.fail("choice-biased", &format!("bucket {} weights {:?} epochs 0..{}", key(&target), weights, nsweep), &format!("edge {i} about {mean:.0} times"), &format!("{} times", hist[i]));
+            }
+        }
+        run.count("epoch-sweeps");
+        found += 1;
+    }
+    if found == 0 { run.notes.push("no non-uniform bucket with >= 3 edges was found for the epoch sweep".into()); }
+    // ---- 3. explore_any on synthetic chance branch lists
+    {
+        let tree = bp.verif_tree();
+        let p = profile.read().unwrap();
+        let epoch = p.epochs();
+        let nodes = tree.all();
+        let chance: Vec<&Node> = nodes.iter().filter(|n| n.player() == Player::chance()).collect();
+        for node in chance.iter().take(if a.thorough() { 200 } else { 40 }) {
+            let game = *node.data().game();
+            for n in [2usize, 3, 5, 17, 40] {
+                let mk = || -> Vec<Branch> {
+                    (0..n).map(|_| {
+                        let mut deck = game.deck();
+                        let cards = deck.deal(game.street());
+                        let g = game.apply(Action::Draw(cards));
+                        Branch(Data::from((g, enc.abstraction(&g))), Edge::Draw, node.index())
+                    }).collect()
+                };
+                // the dealt cards differ per call (thread_rng); identify the chosen index by position:
+                // build once, remember boards, ask repeatedly with rebuilt lists of the same boards
+                let proto = mk();
+                let boards: Vec<u64> = proto.iter().map(|b| u64::from(robopoker::cards::hand::Hand::from(b.0.game().board()))).collect();
+                let rebuild = || -> Vec<Branch> {
+                    boards.iter().map(|bd| {
+                        let old = u64::from(robopoker::cards::hand::Hand::from(game.board()));
+                        let g = game.apply(Action::Draw(robopoker::cards::hand::Hand::from(bd & !old)));
+                        Branch(Data::from((g, enc.abstraction(&g))), Edge::Draw, node.index())
+                    }).collect()
+                };
+                let ask = || -> Option<usize> {
+                    let chosen = p.explore_any(rebuild(), node);
+                    let bd = u64::from(robopoker::cards::hand::Hand::from(chosen[0].0.game().board()));
+                    boards.iter().position(|b| *b == bd)
+                };
+                if boards.iter().collect::<std::collections::BTreeSet<_>>().len() != n { continue; }
+                let first = catch(std::panic::AssertUnwindSafe(&ask)).flatten();
+                let mut answers = vec![first];
+                std::thread::scope(|s| {
+                    let hs: Vec<_> = (0..4).map(|_| s.spawn(|| catch(std::panic::AssertUnwindSafe(&ask)).flatten())).collect();
+                    for h in hs { answers.push(h.join().unwrap_or(None)); }
+                });
+                run.evaluations += 1;
+                run.spec_checked += 1;
+                let op = format!("any {} {} {}", epoch, key(node.bucket()), n);
+                run.line(&op, &match first { Some(i) => i.to_string(), None => "panic".into() });
+                if answers.iter().any(|x| *x != first) {
+                    run.fail("choice-not-reproducible", &op, &format!("{:?}", first), &format!("{:?}", answers));
+                }
+                run.distinct(&(epoch, key(node.bucket()), n));
+                run.count("explore_any");
+            }
+        }
+    }
+    // ---- 4. Layer::init twice / threads / rayon pools
+    let npoints = if a.thorough() { 400 } else { 180 };
+    for rep in 0..(if a.thorough() { 6 } else { 2 }) {
+        let street = Street::Turn;
+        let k = street.k();
+        let mut points: Vec<Histogram> = vec![];
+        let mut dense: Vec<Vec<usize>> = vec![];
+        let mut uniq = std::collections::BTreeSet::new();
+        while points.len() < npoints.max(k + 5) {
+            let m = 20 + rng.below(40) as usize;
+            let center = rng.below(101) as i64;
+            let spread = 1 + rng.below(30) as i64;
+            let mut counts = vec![0usize; 101];
+            for _ in 0..m {
+                let x = (center + rng.range(-spread, spread)).clamp(0, 100) as usize;
+                counts[x] += 1;
+            }
+            if !uniq.insert(counts.clone()) { continue; }
+            let v: Vec<Abstraction> = counts.iter().enumerate().flat_map(|(i, c)| std::iter::repeat(Abstraction::from((Street::Rive, i))).take(*c)).collect();
+            points.push(Histogram::from(v));
+            dense.push(counts);
+        }
+        let layer = Layer::verif_new(street, Metric::default(), points.clone(), vec![]);
+        let idx = |hs: Vec<Histogram>| -> Vec<usize> {
+            hs.iter().map(|h| {
+                let mut c = vec![0usize; 101];
+                for (a, n) in h.verif_counts() { c[a.index()] = n; }
+                dense.iter().position(|d| *d == c).unwrap_or(usize::MAX)
+            }).collect()
+        };
+        let first = catch(std::panic::AssertUnwindSafe(|| idx(layer.verif_init())));
+        let mut answers = vec![catch(std::panic::AssertUnwindSafe(|| idx(layer.verif_init())))];
+        std::thread::scope(|s| {
+            let h = s.spawn(|| catch(std::panic::AssertUnwindSafe(|| idx(layer.verif_init()))));
+            answers.push(h.join().unwrap_or(None));
+        });
+        for nt in [1usize, 3, 8] {
+            let pool = rayon::ThreadPoolBuilder::new().num_threads(nt).build().unwrap();
+            answers.push(pool.install(|| catch(std::panic::AssertUnwindSafe(|| idx(layer.verif_init())))));
+        }
+        run.evaluations += 6;
+        run.spec_checked += 1;
+        let op = format!("init {} {} {}", street as usize, k, dense.iter().map(|c| c.iter().enumerate().filter(|(_, n)| **n > 0).map(|(i, n)| format!("{i}={n}")).collect::<Vec<_>>().join(",")).collect::<Vec<_>>().join(";"));
+        let ans = match &first { Some(v) => v.iter().map(|i| i.to_string()).collect::<Vec<_>>().join(","), None => "panic".into() };
+        run.line(&op, &ans);
+        if answers.iter().any(|x| *x != first) {
+            run.fail("init-not-reproducible", &format!("Layer::init street turn, {} points (rep {rep})", dense.len()), "identical centroids in identical order on every invocation", "different centroid sequences");
+        }
+        run.distinct(&(rep, dense.len()));
+        run.count("kmeans-init");
+    }
     run.finish();
 }
